@@ -182,6 +182,9 @@ def _c02_specs(tier):
     # words whose word-initial triphones are TIED across left contexts in en-us (G(SIL,OW) = G(T,OW)): lextree roots shared by several contexts
     sp.append(('c02-open-ties-enum22', ['--conf', 'open', '--gset', 'enum:2:2', '--words', 'go,goat,at', '--syms', 'SIL,G,OW,T,AE,_', '--segs', '3',
                                         '--routes', 'api', '--patterns', '1']))
+    # the dictionary built with decoder_add_word instead of read from its file: lazily filled cross-word triphone tables
+    sp.append(('c02-open-addwords-enum22', ['--conf', 'open', '--gset', 'enum:2:2', '--words', 'go,goat,ago', '--syms', 'SIL,G,OW,T,AH,_', '--segs', '3',
+                                            '--routes', 'api', '--patterns', '1', '--addwords', '1']))
     for conf in ('default', 'tight'):
         sp.append(('c02-%s-enum23' % conf, ['--conf', conf, '--gset', 'enum:2:3', '--words', 'a,go,no', '--syms', SYM3, '--segs', '2',
                                            '--routes', 'api', '--patterns', '1']))
@@ -318,6 +321,9 @@ def _c07_runs(tier):
             r.append(dict(h='mc_chunk', label='chunk-a%d-g%d-dev%d-frames-uniform-shard%d' % (a, g, dev, i),
                           args=['--audio', str(a), '--gram', str(g), '--dev', str(dev), '--menu', 'frames', '--uniform', '1', '--fresh', '1',
                                 '--shard', '%d/%d' % (i, nsh)]))
+    # one full-utterance call against one streaming call, number of frames only, for every length in the last 170 samples
+    for a in ((0, 1) if tier == 'quick' else (0, 1, 2, 3)):
+        r.append(dict(h='mc_chunk', label='chunk-a%d-fullutt-framecount' % a, args=['--audio', str(a), '--gram', '0', '--dev', '0', '--fullutt', '1']))
     if tier == 'thorough':
         for i in range(4):
             r.append(dict(h='mc_chunk', label='chunk-compallsen-shard%d' % i, args=['--audio', '2', '--gram', '0', '--dev', '2', '--menu', 'full',
@@ -415,6 +421,7 @@ DEC_ASSUME = ['audio is represented by per-frame symbols over a small phone alph
 
 CHECKS = {
     'C01': dict(
+        min_nontrivial_ratio=0.05,
         title='recognition results are sentences of the active grammar',
         level='exploration',
         runs={'quick': _dec_runs('C01', _c01_specs('quick')), 'thorough': _dec_runs('C01', _c01_specs('thorough'))},
@@ -429,6 +436,7 @@ CHECKS = {
         assumptions=DEC_ASSUME + TRUST,
     ),
     'C02': dict(
+        min_nontrivial_ratio=0.05,
         title='with pruning disabled the search returns the true Viterbi optimum',
         level='exploration',
         runs={'quick': _dec_runs('C02', _c02_specs('quick')), 'thorough': _dec_runs('C02', _c02_specs('thorough'))},
@@ -443,6 +451,7 @@ CHECKS = {
                                   'context conventions granted to the decoder are those documented in fsg_lextree.c/fsg_search.c (see harness/refviterbi.h)'] + TRUST,
     ),
     'C04': dict(
+        min_nontrivial_ratio=0.05,
         title='forced alignment is a consistent words > phones > states hierarchy',
         level='exploration',
         runs={'quick': _dec_runs('C04', _c04_specs('quick')), 'thorough': _dec_runs('C04', _c04_specs('thorough'))},
@@ -474,7 +483,8 @@ CHECKS = {
              'vector of every searched frame (hashed at the acmod_score seam), frames searched, hypothesis, score, every segment with scores, '
              'and the three-level alignment identical to the reference run',
         assumptions=['audio shorter than the 800-frame channel-normalisation update window', 'model en-us, 5-word dictionary',
-                     'full_utt=1 is a different documented mode (batch normalisation) and is covered by C08, not compared here'] + TRUST,
+                     'full_utt=1 is a different documented mode (batch normalisation): only its NUMBER of frames is compared here (every length in '
+                     'the last 170 samples of an excerpt, int16 and float32); its results are covered by C08'] + TRUST,
     ),
     'C08': dict(
         title='utterances and decoder instances are isolated; decoding is deterministic',
@@ -576,6 +586,7 @@ CHECKS = {
                      'the frame alphabet is a choice of extreme waveforms, not all waveforms'] + TRUST,
     ),
     'C11': dict(
+        min_nontrivial_ratio=0.05,
         title='the word lattice is a well-formed, time-consistent graph of grammar paths',
         level='exploration',
         runs={'quick': _dec_runs('C11', _lat_specs('quick', 'c11')), 'thorough': _dec_runs('C11', _lat_specs('thorough', 'c11'))},
@@ -589,6 +600,7 @@ CHECKS = {
         assumptions=DEC_ASSUME + ['no lattice (NULL) is accepted where the decoder builds none; counted in the evidence'] + TRUST,
     ),
     'C12': dict(
+        min_nontrivial_ratio=0.05,
         title='N-best lists and lattice scores are ordered and probabilistically sane',
         level='exploration',
         runs={'quick': _dec_runs('C11,C12', _lat_specs('quick', 'c12')), 'thorough': _dec_runs('C11,C12', _lat_specs('thorough', 'c12'))},
@@ -603,6 +615,7 @@ CHECKS = {
                                   'N-best completeness is only demanded for lattices with at most 400 paths (below the iterator\'s own agenda cap of 500)'] + TRUST,
     ),
     'C14': dict(
+        min_nontrivial_ratio=0.05,
         title='the JSON result is well-formed and says what the iterators say',
         level='exploration',
         runs={'quick': _dec_runs('C14', _c14_specs('quick')), 'thorough': _dec_runs('C14', _c14_specs('thorough'))},
@@ -616,6 +629,7 @@ CHECKS = {
                                   'with an alignment level > 0 a NULL return is accepted exactly when decoder_alignment() is NULL'] + TRUST,
     ),
     'C03': dict(
+        min_nontrivial_ratio=0.05,
         title='word segmentation tiles the utterance and agrees with hypothesis and score',
         level='exploration',
         runs={'quick': _dec_runs('C03', _c03_specs('quick')) + _c03_count_runs('quick'),
